@@ -176,6 +176,8 @@ class Substitutor(SchemaVisitor[GenericSchema]):
             for key, val in value.items():
                 if is_ellipsis(val) and not is_ellipsis(key):
                     raise SubstitutionError(f"Can't substitute ... for undeclared key {key!r}")
+                if is_ellipsis(key) and not is_ellipsis(val):
+                    raise SubstitutionError(f"Can't substitute {val!r} for ...")
                 keys[key] = (... if is_ellipsis(val) else self._from_native(val), False)
             if (schema.props.keys is not Nil) and (... in schema.props.keys):
                 keys[...] = (..., False)
